@@ -120,6 +120,12 @@ def check_C02(ctx):
     rep.floor("value-dependent reader refusals examined", nref, 1)
     rep.rule("ALIGN", "the writer's align and the slice reader's align move by the same amount pad_align_to(position, unit(T))")
     align_pair(ctx, ("default WriteWithNames", "SliceWithPos"))
+    rep.rule("M1", "every alignment unit is a power of two >= the native alignment: the eps reader pads with the mask form of pad_align_to and tests `address % unit`, which agree with the writer's offsets only for power-of-two units")
+    try:
+        uu, cname = units_universe(ctx)
+        rules_align.rule_M1(uu, rep, cname)
+    except ExportError as ex:
+        rep.add("M1", "universe", "the universe of closed zero-copy types no longer compiles: " + str(ex)[-300:])
     rep.rule("ERR-WHO", "eps readers and helpers construct no error of their own except InvalidTag (for a tag no variant writes)")
     nr = rules_err.rule_reader_refusals(ctx.universe("default", CORPUS), rep, "eps")
     rep.floor("eps reader functions scanned", nr, 80)
@@ -141,6 +147,10 @@ def check_C15(ctx):
     rep.floor("built-in tagged sum types", nsum, 3)
     nsum2 = sum(1 for t in ts if getattr(t, "is_sum", False) and t.crate != "epserde")
     rep.floor("derived enums of the corpus", nsum2, 7)
+    rep.rule("ERR-WHO", "the InvalidTag built by a reader reaches the caller: the entry points deserialize_full / deserialize_eps construct no error of their own (they do not rewrite the reader's error), and readers construct none but InvalidTag")
+    uu = ctx.universe("default", CORPUS)
+    for md in ("full", "eps"):
+        rules_err.rule_reader_refusals(uu, rep, md)
     if ctx.tier == "thorough":
         r = generated_corpus(ctx, rep, ("W3",))
         if r:
@@ -699,7 +709,7 @@ def check_C12(ctx):
     rep.rule("W4", "every block carved by an eps reader is immediately preceded by align::<T'> with unit(T') = unit(T), its result propagated")
     rep.rule("S-WHO", "Error::AlignmentError is constructed only by the slice-backed align and by load_mem's pre-check")
     rep.rule("LOADMEM-PRECHECK", "load_mem rejects types whose native alignment exceeds that of the heap region, before touching the file")
-    rep.rule("M1", "unit(T) >= align_of::<T>() and a power of two for the universe of closed zero-copy types (so `multiple of the unit` implies `aligned for the type`)")
+    rep.rule("M1", "unit(T) is a multiple of align_of::<T>() for the universe of closed zero-copy types (so `multiple of the unit` implies `aligned for the type`)")
     ts = wire_props(ctx, ("eps",), ("W4",), 56, w4_sides=("eps",))
     u = ctx.universe("default", CORPUS)
     rules_eps.rule_align_guard(u, rep)
@@ -712,7 +722,7 @@ def check_C12(ctx):
     rules_eps.rule_load_mem_precheck(u, rep)
     try:
         uu, cname = units_universe(ctx)
-        rules_align.rule_M1(uu, rep, cname)
+        rules_align.rule_M1(uu, rep, cname, mode="borrow")
         rep.rule("M2", "derived max_size_of = max over align_of::<Self>() and the unit of every field (the unit of a derived zero-copy type is at least its native alignment)")
         rules_align.rule_M2(uu, rep)
     except ExportError as ex:
@@ -738,10 +748,10 @@ def check_C03(ctx):
     rep.rule("HEAP-SKELETON", "eps readers reserve skeleton vectors for exactly the element count read from the stream")
     rules_eps.rule_skeleton_capacity(u, rep)      # no floor: a reader built with collect() reserves nothing by hand
     # the guard compares the address with unit(T): the borrowed &T is aligned only if unit(T) >= align_of::<T>()
-    rep.rule("M1 / M2", "folded alignment unit of every closed zero-copy type >= its native alignment (rustc layout); derived units = max over align_of::<Self>() and the field units: the address check of the alignment point then implies an aligned reference")
+    rep.rule("M1 / M2", "folded alignment unit of every closed zero-copy type is a multiple of its native alignment (rustc layout); derived units = max over align_of::<Self>() and the field units: the address check of the alignment point then implies an aligned reference")
     try:
         uu, cname = units_universe(ctx)
-        nm = rules_align.rule_M1(uu, rep, cname)
+        nm = rules_align.rule_M1(uu, rep, cname, mode="borrow")
         rep.floor("closed zero-copy types folded", nm, 140)
         rules_align.rule_M2(uu, rep)
     except ExportError as ex:
@@ -1036,6 +1046,7 @@ def check_C19(ctx):
     rep.rule("CUR-SEEK", "seek: Start sets the given value; End/Current = length/position + offset through checked_add_signed; failing paths leave the state unchanged; length never changes")
     rep.rule("CUR-ACC / CUR-BASE", "position/len/set_position are plain accessors; as_bytes(_mut) is the first len bytes at the base address of the aligned storage")
     rep.rule("CUR-WHO", "no method other than write changes the length or the storage (as_bytes_mut hands out only the first len bytes)")
+    rep.rule("CUR-API", "the Read/Write/Seek impls define only the required methods (and stream_position): provided methods keep std's definition in terms of them")
     rep.rule("SUB", "every usize subtraction in the cursor is guarded by a condition on the same path (or is MAX - x)")
     u = ctx.universe()
     n = rules_cursor.rule_cursor(u, rep)
